@@ -225,4 +225,166 @@ def woSC : Iface (SCTester (Option Nat) (WOOp Nat) (WORet Nat)) (WOOp Nat) (WORe
   writeFail := .writeFail
   readOk v := .readOk (some v)
 
+
+/-!
+## The harness as a transition system with an arbitrary environment (for the C18 theorems)
+
+Servers and the network are replaced by an *arbitrary environment* that may put a reply
+`(client, msg)` into the network at any time, provided the request id it answers was sent by that
+client before and has not been answered yet ("answers each request at most once"); replies are
+delivered in any order, may be dropped, and on a duplicating network stay deliverable. Deliveries
+to clients go through the executable `deliverClient` above (the delivery rule of actor/model.rs
+included). Deliveries *to servers* and server timeouts are not steps of this system: they touch
+clients and history only through the replies they send, because `record_returns` ignores `Put` /
+`Get` / `Internal` and `record_invocations` ignores replies and `Internal` (servers are assumed to
+send nothing else).
+
+Ghost components (`sent`, `replied`, `log`) record what happened; they influence nothing.
+-/
+
+/-- client-visible events, in the order they happened -/
+inductive CEv where
+  | send (c : Nat) (m : RMsg)   -- client `c` sent request `m`
+  | acc (c : Nat) (m : RMsg)    -- client `c` accepted reply `m` (its handler acted on it)
+deriving DecidableEq, Repr
+
+def ridOf : RMsg → Nat
+  | .internal => 0
+  | .put r _ => r
+  | .get r => r
+  | .putOk r => r
+  | .putFail r => r
+  | .getOk r _ => r
+
+/-- the messages a server may answer with -/
+def IsReply (wo : Bool) : RMsg → Prop
+  | .putOk _ => True
+  | .getOk _ _ => True
+  | .putFail _ => wo = true
+  | _ => False
+
+structure Cfg where
+  wo : Bool
+  ordered : Bool
+  dup : Bool
+  nServers : Nat
+  clients : List Client
+
+def Cfg.actors (cfg : Cfg) : List ActorDesc :=
+  List.replicate cfg.nServers (.server []) ++ cfg.clients.map .client
+
+/-- well-formed configuration: at least one server, every client knows the server count, an
+    ordered network does not duplicate -/
+structure Cfg.Ok (cfg : Cfg) : Prop where
+  servers : 1 ≤ cfg.nServers
+  counts : ∀ c ∈ cfg.clients, c.serverCount = cfg.nServers
+  net : cfg.ordered = true → cfg.dup = false
+
+structure HSt (H : Type) where
+  sys : RSys H
+  pool : List (Nat × RMsg)
+  sent : List (Nat × Nat)
+  replied : List (Nat × Nat)
+  log : List CEv
+
+def HSt.init {H : Type} (h0 : H) : HSt H :=
+  { sys := { clients := [], hist := h0 }, pool := [], sent := [], replied := [], log := [] }
+
+/-- what a client handler's output adds to the ghost state -/
+def sentOf (c : Nat) (outs : List Send) : List (Nat × Nat) := outs.map fun o => (c, ridOf o.2)
+def logOf (c : Nat) (outs : List Send) : List CEv := outs.map fun o => CEv.send c o.2
+
+inductive Step {H Op Ret : Type} (cfg : Cfg) (I : Iface H Op Ret) : HSt H → HSt H → Prop
+  /-- `init_states` starts the next client (`on_start`, commands processed at once) -/
+  | start {s : HSt H} {c : Client} {st : CState} {outs : List Send} :
+      cfg.clients[s.sys.clients.length]? = some c →
+      c.start (cfg.nServers + s.sys.clients.length) = some (st, outs) →
+      Step cfg I s
+        { sys := { clients := s.sys.clients ++ [(cfg.nServers + s.sys.clients.length, st)],
+                   hist := processSends I (cfg.nServers + s.sys.clients.length) s.sys.hist outs },
+          pool := s.pool,
+          sent := s.sent ++ sentOf (cfg.nServers + s.sys.clients.length) outs,
+          replied := s.replied,
+          log := s.log ++ logOf (cfg.nServers + s.sys.clients.length) outs }
+  /-- the environment answers a request that was sent and not answered before -/
+  | emit {s : HSt H} {c : Nat} {m : RMsg} :
+      IsReply cfg.wo m → (c, ridOf m) ∈ s.sent → (c, ridOf m) ∉ s.replied →
+      Step cfg I s { s with pool := s.pool ++ [(c, m)], replied := (c, ridOf m) :: s.replied }
+  /-- a reply is delivered and the client acts on it -/
+  | deliver {s : HSt H} {c : Nat} {m : RMsg} {cl : Client} {st st' : CState} {outs : List Send} {sys' : RSys H} :
+      (c, m) ∈ s.pool → clientAt cfg.actors c = some cl →
+      AMap.find? c s.sys.clients = some st → cl.onMsg cfg.wo c st m = some (st', outs) →
+      deliverClient I cfg.wo cfg.ordered cl s.sys c m = some sys' →
+      Step cfg I s
+        { sys := sys',
+          pool := if cfg.dup then s.pool else s.pool.erase (c, m),
+          sent := s.sent ++ sentOf c outs,
+          replied := s.replied,
+          log := s.log ++ CEv.acc c m :: logOf c outs }
+  /-- a reply is delivered and ignored by the client, yet the delivery is a step (ordered network) -/
+  | deliverIgnored {s : HSt H} {c : Nat} {m : RMsg} {cl : Client} {st : CState} {sys' : RSys H} :
+      (c, m) ∈ s.pool → clientAt cfg.actors c = some cl →
+      AMap.find? c s.sys.clients = some st → cl.onMsg cfg.wo c st m = none →
+      deliverClient I cfg.wo cfg.ordered cl s.sys c m = some sys' →
+      Step cfg I s { s with sys := sys', pool := s.pool.erase (c, m) }
+  /-- a reply is lost -/
+  | drop {s : HSt H} {c : Nat} {m : RMsg} :
+      (c, m) ∈ s.pool → Step cfg I s { s with pool := s.pool.erase (c, m) }
+
+inductive Reach {H Op Ret : Type} (cfg : Cfg) (I : Iface H Op Ret) (h0 : H) : HSt H → Prop
+  | init : Reach cfg I h0 (HSt.init h0)
+  | step {s s' : HSt H} : Reach cfg I h0 s → Step cfg I s s' → Reach cfg I h0 s'
+
+/-- the operation a request message stands for / the return a reply stands for -/
+def opOfMsg {H Op Ret} (I : Iface H Op Ret) : RMsg → Option Op
+  | .put _ v => some (I.write v)
+  | .get _ => some I.read
+  | _ => none
+
+def retOfMsg {H Op Ret} (I : Iface H Op Ret) (wo : Bool) : RMsg → Option Ret
+  | .putOk _ => some I.writeOk
+  | .putFail _ => if wo then some I.writeFail else none
+  | .getOk _ v => some (I.readOk v)
+  | _ => none
+
+/-- the mirror of the client-visible calls of client `c`: completed `(op, ret)` pairs in order and
+    the outstanding operation -/
+def mirrorStep {H Op Ret} (I : Iface H Op Ret) (wo : Bool) (c : Nat) (acc : List (Op × Ret) × Option Op) :
+    CEv → List (Op × Ret) × Option Op
+  | .send c' m => if c' = c then (acc.1, opOfMsg I m) else acc
+  | .acc c' m =>
+    if c' = c then
+      match acc.2, retOfMsg I wo m with
+      | some op, some r => (acc.1 ++ [(op, r)], none)
+      | _, _ => acc
+    else acc
+
+def mirror {H Op Ret} (I : Iface H Op Ret) (wo : Bool) (c : Nat) (log : List CEv) : List (Op × Ret) × Option Op :=
+  log.foldl (mirrorStep I wo c) ([], none)
+
+/-- the request ids client `c` has used, in order -/
+def ridsOf (c : Nat) (log : List CEv) : List Nat :=
+  log.filterMap fun e => match e with
+    | .send c' m => if c' = c then some (ridOf m) else none
+    | .acc _ _ => none
+
+/-- what the theorems need to know about a history type: validity flag, in-flight operation and
+    completed operations per thread, and how `on_invoke` / `on_return` act on a valid history -/
+structure HistView {H Op Ret : Type} (I : Iface H Op Ret) where
+  good : H → Prop
+  valid : H → Bool
+  inflight : H → Nat → Option Op
+  done : H → Nat → List (Op × Ret)
+  inv_ok : ∀ h t op, good h → valid h = true → inflight h t = none →
+    good (I.onInvoke h t op) ∧ valid (I.onInvoke h t op) = true ∧
+    inflight (I.onInvoke h t op) t = some op ∧
+    (∀ t', t' ≠ t → inflight (I.onInvoke h t op) t' = inflight h t') ∧
+    (∀ t', done (I.onInvoke h t op) t' = done h t')
+  ret_ok : ∀ h t op r, good h → valid h = true → inflight h t = some op →
+    good (I.onReturn h t r) ∧ valid (I.onReturn h t r) = true ∧
+    inflight (I.onReturn h t r) t = none ∧
+    (∀ t', t' ≠ t → inflight (I.onReturn h t r) t' = inflight h t') ∧
+    done (I.onReturn h t r) t = done h t ++ [(op, r)] ∧
+    (∀ t', t' ≠ t → done (I.onReturn h t r) t' = done h t')
+
 end SR.Sem.RC
